@@ -130,9 +130,9 @@ type Model struct {
 	// end of the last BIND completion that named the key
 	cUnbindInv, cBindRet map[string]int
 	cHomeSure            map[string]bool // home fixed by a BIND completion no other BIND completion overlapped
-	bindDones            int     // BIND completion callbacks currently running
-	bindOverlap          bool    // ... and whether another one overlapped the running ones
-	readingOut           [2]bool // C07: readings of "last response" contradicted so far in this run
+	bindDones            int             // BIND completion callbacks currently running
+	bindOverlap          bool            // ... and whether another one overlapped the running ones
+	readingOut           [2]bool         // C07: readings of "last response" contradicted so far in this run
 	aggKnown             bool
 	pds                  map[int]*donePending
 	// Coverage probes.
